@@ -338,3 +338,38 @@ func Yields() int { return 0 }
 // QuiesceSteps lets the other tasks run for at most n synchronisation points
 // (engine); natively it waits a moment.
 func QuiesceSteps(n int) { time.Sleep(30 * time.Millisecond) }
+
+// MustTerminate declares that the code run until Terminated() must finish within
+// `steps` interpreted SSA steps; under the engine, running out of steps is then a
+// counterexample with this label (non-termination) instead of an unwinding
+// failure. Natively use RunWithDeadline.
+func MustTerminate(label string, steps int) {}
+
+// Terminated ends the region started by MustTerminate.
+func Terminated() {}
+
+// RunWithDeadline runs f; natively it fails the assertion `label` when f has not
+// returned after d (the goroutine is abandoned). Under the engine f is simply
+// called inside a MustTerminate region.
+func RunWithDeadline(label string, steps int, d time.Duration, f func()) {
+	if Symbolic() {
+		MustTerminate(label, steps)
+		f()
+		Terminated()
+		return
+	}
+	done := make(chan struct{})
+	var pv interface{}
+	go func() {
+		defer func() { pv = recover(); close(done) }()
+		f()
+	}()
+	select {
+	case <-done:
+		if pv != nil {
+			panic(pv)
+		}
+	case <-time.After(d):
+		Assert(false, label)
+	}
+}
